@@ -484,7 +484,13 @@ class Frame(Widget, WidgetContainerMixin, typing.Generic[BodyWidget, HeaderWidge
             combinelist.append((foot, "footer", self.focus_part == "footer"))
             depends_on.append(self.footer)
 
-        return CanvasCombine(combinelist)
+        canvas = CanvasCombine(combinelist)
+        hidden = [w for w, shown in ((self.header, head), (self.footer, foot)) if w is not None and shown is None]
+        if hidden:
+            # a header / footer that is left out (it reports no rows, or there is no room for it) still
+            # decided the layout: the canvas depends on it like on the parts that are displayed
+            canvas.set_depends(depends_on + hidden)
+        return canvas
 
     def keypress(
         self,
